@@ -21,6 +21,10 @@ Shape of a translated method
   Pure `return <bool>` methods become  gen_<C>_<m> (st : sim) : bool.
 
 Supported subset
+  helpers      a method of the simulator / worker class or a module-level function that is not in METHODS is translated
+               at its call site (arguments evaluated first, in the caller's state; its `return` continues the caller,
+               its `raise` is the caller's raise there); inside an expression only helpers that are `return <expr>`.
+               Refused: recursive helpers, *args / **kwargs / keyword-only parameters, loops inside a helper.
   statements   docstring, `pass`; `if / elif / else`; `raise DSOLError(..)` (-> EDSOL), `raise <OtherError>(..)`
                (-> EOther); `return`, `return <event>`, `return self.m(..)`; `x = e`, `x: T = e`;
                assignments to the attributes of the table FIELDS (`self._simulator_time = t` -> set_clock ...);
@@ -129,9 +133,7 @@ METHODS = [
     ("DEVSSimulator", "schedule_event_rel", "cmd"),
     ("DEVSSimulator", "schedule_event_abs", "cmd"),
     ("DEVSSimulator", "cancel_event", "cmd"),
-    ("Simulator", "_stop_impl", "cmd"),
     ("Simulator", "stop", "cmd"),
-    (WORKER, "cleanup", "cmd"),
     ("Simulator", "cleanup", "cmd"),
     ("DEVSSimulator", "_step_impl", "cmd"),
     ("Simulator", "step", "cmd"),
@@ -143,7 +145,6 @@ METHODS = [
     ("Simulator", "run_up_to_including", "cmd"),
     ("Simulator", "end_replication", "cmd"),
     ("DEVSSimulator", "end_replication", "cmd"),
-    ("Simulator", "_check_initialize", "cmd"),
     ("Simulator", "initialize", "cmd"),
     ("DEVSSimulator", "initialize", "cmd"),
 ]
@@ -163,7 +164,6 @@ SIG = {
     ("Simulator", "_start_impl"): [("run_until_time", "Time", None), ("run_until_including", "Bool", None)],
     ("Simulator", "run_up_to"): [("stop_time", "Time", None)],
     ("Simulator", "run_up_to_including"): [("stop_time", "Time", None)],
-    ("Simulator", "_check_initialize"): [("model", "Model", None), ("replication", "Repl", None)],
     ("Simulator", "initialize"): [("model", "Model", None), ("replication", "Repl", None)],
     ("DEVSSimulator", "initialize"): [("model", "Model", None), ("replication", "Repl", None)],
 }
@@ -436,6 +436,11 @@ class Ctx:
         self.in_try = 0
         self.has_loop = False
         self.ignored = []
+        self.try_ends_loop_body = False
+        self.ret_k = None           # inside an inlined helper: what its `return` continues with
+        self.inline_stack = []      # helpers being inlined (a recursive helper is refused)
+        self.hmode = HMODE.get((cls, name))
+        self.inlined = []
 
     def fresh(self, stem):
         self.counter[stem] = self.counter.get(stem, 0) + 1
@@ -479,6 +484,7 @@ class Translator:
         self.ctx = None
         self.consts = {}            # "ErrorStrategy.X" / "SimEventInterface.X_PRIORITY" -> int
         self.blocks_done = set()
+        self.module_funcs = {}
         self.ignored_used = {}
         self.module_checks()
 
@@ -500,6 +506,7 @@ class Translator:
                     names.append((a.asname or a.name, f"from {st.module} import {a.name}"))
             elif isinstance(st, (ast.FunctionDef, ast.AsyncFunctionDef)):
                 names.append((st.name, "def"))
+                self.module_funcs[st.name] = st
             elif isinstance(st, ast.ClassDef):
                 names.append((st.name, "class"))
                 if st.name in self.classes:
@@ -737,12 +744,23 @@ class Translator:
             else:
                 if kind == "worker_run":
                     # the thread's loop `while not self._finalized: <wait>; <one wake-up>`: one wake-up is translated
-                    if len(body) != 1 or not isinstance(body[0], ast.While) or body[0].orelse or \
-                            ast.unparse(body[0].test) != "not self._finalized":
-                        self.fail(f, "the worker's run() is not `while not self._finalized: ...`")
-                    body = list(body[0].body)
-                    if not body or ast.unparse(body[0]) != "self.__wakeup_flag.wait()":
+                    pre = body[:-1]
+                    loop = body[-1] if body else None
+                    if not isinstance(loop, ast.While) or loop.orelse or ast.unparse(loop.test) != "not self._finalized":
+                        self.fail(f, "the worker's run() does not end in `while not self._finalized: ...`")
+                    for st0 in pre:     # only bindings of aliases / constants may precede the loop
+                        if not isinstance(st0, (ast.Assign, ast.AnnAssign)) or st0.value is None:
+                            self.fail(st0, "a statement before the worker's loop that is not a local binding")
+                        tg = st0.targets[0] if isinstance(st0, ast.Assign) else st0.target
+                        if not isinstance(tg, ast.Name):
+                            self.fail(st0, "a statement before the worker's loop that is not a local binding")
+                        v0 = self.ex(st0.value, env)
+                        if v0.ty not in ("Job", "WorkerSelf", "Str", "Opaque", "EvType") or v0.defd:
+                            self.fail(st0, f"a local of kind {v0.ty} bound before the worker's loop (it would be stale in later wake-ups)")
+                    lb = list(loop.body)
+                    if not lb or ast.unparse(lb[0]) != "self.__wakeup_flag.wait()":
                         self.fail(f, "the worker's loop does not start with the wait for the wake-up")
+                    body = pre + lb
                 text = self.method_body(body, env, name)
                 pre = (["(fuel : nat)"] if ctx.needs_fuel else []) + (["(p : program)"] if ctx.needs_p else []) + ["(w : bool)", "(st : sim)"]
                 self.defs.append((name, f"{header}\n{text[0]}Definition {name} {' '.join(pre + binders)} : gres :=\n{ind(text[1])}."))
@@ -751,7 +769,8 @@ class Translator:
             src_lines = self.lines[f.lineno - 1:f.end_lineno]
             self.translated.append({"class": cname, "method": mname, "definition": name, "lines": [f.lineno, f.end_lineno],
                                     "sha1": hashlib.sha1("\n".join(src_lines).encode("utf-8")).hexdigest(),
-                                    "ignored_statements": ctx.ignored})
+                                    "ignored_statements": [i for n, i in enumerate(ctx.ignored) if i not in ctx.ignored[:n]],
+                                    "inlined_helpers": ctx.inlined})
             return s
         except Unsupported as exc:
             self.failed[key] = exc
@@ -768,10 +787,9 @@ class Translator:
             for n in ast.walk(s):
                 if isinstance(n, ast.While) and n not in body and not self.is_wait_loop(n):
                     self.fail(n, "a loop that is not at the top level of the method")
-                if isinstance(n, (ast.For, ast.AsyncFor)) and ast.unparse(n) not in IGNORED_STATEMENTS:
+                if isinstance(n, (ast.For, ast.AsyncFor)) and ast.unparse(n) not in IGNORED_STATEMENTS and not self.is_wait_loop(n):
                     self.fail(n, "for loop")
-                if isinstance(n, (ast.Break, ast.Continue)):
-                    self.fail(n, type(n).__name__)
+            self.no_stray_break(s)
         if not loops:
             return "", self.block(body, env, self.finish)
         if len(loops) > 1:
@@ -788,6 +806,13 @@ class Translator:
         for k, v in env.locals.items():
             if v.tx and v.tx.startswith("p_"):
                 lenv.locals[k] = v
+        # locals bound before the loop to things that do not depend on the state stay visible in it
+        probe = []
+        self.block(body[:i], env, lambda e: probe.append(e) or "")
+        if len(probe) == 1:
+            for k, v in probe[0].locals.items():
+                if k not in lenv.locals and v.ty in ("Job", "WorkerSelf", "AliasEvList", "Str", "Opaque", "EvType"):
+                    lenv.locals[k] = v
         cond = self.ex_bool(loop.test, lenv)
         after = self.block(body[i + 1:], lenv, self.finish)
         c.loop = (lname, "fuel'")
@@ -852,8 +877,20 @@ class Translator:
 
     @staticmethod
     def is_wait_loop(s):
-        """`while <cond>: sleep(..) [; count += 1]` -- waiting for another thread, never translated"""
-        if not isinstance(s, ast.While) or s.orelse or not s.body:
+        """`while <cond>: sleep(..) [; count += 1]`, also as `for _ in range(..): [if <cond>: break;] sleep(..)` --
+        waiting for another thread: a loop whose body only sleeps, counts in a local and leaves by `break`; never
+        translated (no effect on the simulator object; its tests are not evaluated)"""
+        if isinstance(s, ast.For):
+            it = s.iter
+            if not (isinstance(s.target, ast.Name) and isinstance(it, ast.Call) and isinstance(it.func, ast.Name)
+                    and it.func.id == "range" and not it.keywords
+                    and all(isinstance(a, ast.Constant) and isinstance(a.value, int) for a in it.args)):
+                return False
+        elif not isinstance(s, ast.While):
+            return False
+        elif not Translator.pure_wait_test(s.test):
+            return False
+        if s.orelse or not s.body:
             return False
         for b in s.body:
             if isinstance(b, ast.Expr) and isinstance(b.value, ast.Call) and isinstance(b.value.func, ast.Name) \
@@ -861,8 +898,39 @@ class Translator:
                 continue
             if isinstance(b, ast.AugAssign) and isinstance(b.target, ast.Name) and isinstance(b.op, ast.Add):
                 continue
+            if isinstance(b, ast.Pass):
+                continue
+            if isinstance(b, ast.If) and not b.orelse and len(b.body) == 1 and isinstance(b.body[0], ast.Break) \
+                    and Translator.pure_wait_test(b.test):
+                continue
             return False
         return any(isinstance(b, ast.Expr) for b in s.body)
+
+    @staticmethod
+    def pure_wait_test(t):
+        """the test of a wait loop is not evaluated by the translation: it may only read (worker.is_waiting(),
+        .is_finalized(), time.time(), int(..), attributes, locals, constants)"""
+        for n in ast.walk(t):
+            if isinstance(n, (ast.NamedExpr, ast.Await, ast.Yield, ast.YieldFrom, ast.Lambda)):
+                return False
+            if isinstance(n, ast.Call):
+                f = n.func
+                if isinstance(f, ast.Attribute) and f.attr in ("is_waiting", "is_finalized", "time") and not n.args and not n.keywords:
+                    continue
+                if isinstance(f, ast.Name) and f.id == "int" and len(n.args) == 1 and not n.keywords:
+                    continue
+                return False
+        return True
+
+    def no_stray_break(self, s):
+        """`break` only leaves a wait loop"""
+        def walk(n, inside):
+            if isinstance(n, ast.Break) and not inside:
+                self.fail(n, "break")
+            ins = inside or self.is_wait_loop(n)
+            for ch in ast.iter_child_nodes(n):
+                walk(ch, ins)
+        walk(s, False)
 
     # ------------------------------------------------------------------ expressions (pure; may carry definedness)
     def self_kind(self, e, env):
@@ -870,7 +938,11 @@ class Translator:
         c = self.ctx
         if isinstance(e, ast.Name) and e.id == "self" and "self" not in env.locals:
             return "worker" if c.cls == WORKER else "sim"
-        if c.cls == WORKER and isinstance(e, ast.Attribute) and e.attr == "_job" and self.self_kind(e.value, env) == "worker":
+        if isinstance(e, ast.Name) and e.id in env.locals and env.locals[e.id].ty in ("Job", "WorkerSelf"):
+            # a local / parameter bound to the simulator object (self._job, self passed on) or to the worker object;
+            # neither attribute is ever re-assigned, so the alias and the attribute denote the same object
+            return "sim" if env.locals[e.id].ty == "Job" else "worker"
+        if isinstance(e, ast.Attribute) and e.attr == "_job" and self.self_kind(e.value, env) == "worker":
             return "sim"
         return None
 
@@ -922,8 +994,26 @@ class Translator:
             return V("Str")
         if isinstance(e, ast.Name):
             if e.id in env.locals:
-                return env.locals[e.id]
+                v = env.locals[e.id]
+                if v.ty == "AliasEvList":       # the event list OBJECT: read as it is now, not as it was at the binding
+                    return V("EvList", f"(pend {env.st})")
+                return v
+            if e.id == "self":
+                return V("WorkerSelf" if c.cls == WORKER else "Job")
             self.fail(e, f"name `{e.id}` (not a parameter or a local assigned on every path before)")
+        if isinstance(e, ast.IfExp):
+            cd = self.ex_bool(e.test, env)
+            a, b = self.ex(e.body, env), self.ex(e.orelse, env)
+            if a.ty != b.ty or a.tx is None or b.tx is None or a.ty not in ("Time", "Bool", "Z", "RunSt", "ReplSt"):
+                self.fail(e, f"conditional expression between values of kinds {a.ty} and {b.ty}")
+            defd = list(cd.defd)
+            if a.defd:
+                defd.append(f"(negb {cd.tx} || {conj(a.defd)})")
+            if b.defd:
+                defd.append(f"({cd.tx} || {conj(b.defd)})")
+            z = f"(if {cd.tx} then {a.z} else {b.z})" if (a.ty == "Time" and a.z and b.z) else None
+            tx = f"(TNum {z})" if z else f"(if {cd.tx} then {a.tx} else {b.tx})"
+            return V(a.ty, tx, defd=defd, z=z)
         if isinstance(e, ast.Attribute):
             sk = self.self_kind(e.value, env)
             if sk == "sim":
@@ -1003,6 +1093,25 @@ class Translator:
         if len(e.ops) != 1:
             self.fail(e, "chained comparison")
         op = e.ops[0]
+        if isinstance(op, (ast.In, ast.NotIn)):
+            # membership in a literal tuple / list / set of states or ints: a disjunction of equalities (not for times:
+            # `nan in (nan,)` is decided by identity)
+            lit = e.comparators[0]
+            if not isinstance(lit, (ast.Tuple, ast.List, ast.Set)) or not lit.elts:
+                self.fail(e, "`in` with something else than a non-empty literal tuple / list / set")
+            a = self.ex(e.left, env)
+            if a.ty not in ("RunSt", "ReplSt", "Z"):
+                self.fail(e, f"`in` on a value of kind {a.ty}")
+            parts, defd = [], list(a.defd)
+            for x in lit.elts:
+                one = ast.copy_location(ast.Compare(left=e.left, ops=[ast.Eq()], comparators=[x]), e)
+                v = self.boolean(one, env)
+                parts.append(v.tx)
+                defd += [d for d in v.defd if d not in defd]
+            tx = parts[0]
+            for q in parts[1:]:
+                tx = f"({tx} || {q})"
+            return V("Bool", f"(negb {tx})" if isinstance(op, ast.NotIn) else tx, defd=defd)
         a, b = self.ex(e.left, env), self.ex(e.comparators[0], env)
         defd = a.defd + b.defd
         neg = isinstance(op, (ast.NotEq, ast.IsNot))
@@ -1042,6 +1151,17 @@ class Translator:
             self.fail(e, "starred / ** arguments")
         f = e.func
         if isinstance(f, ast.Name) and f.id not in env.locals:
+            if f.id == "isinstance" and len(e.args) == 2 and not e.keywords and isinstance(e.args[1], ast.Tuple):
+                if not e.args[1].elts:
+                    self.fail(e, "isinstance with an empty tuple")
+                parts = []
+                for t in e.args[1].elts:
+                    one = ast.copy_location(ast.Call(func=e.func, args=[e.args[0], t], keywords=[]), e)
+                    parts.append(self.call_expr(one, env))
+                tx = parts[0].tx
+                for q in parts[1:]:
+                    tx = f"({tx} || {q.tx})"
+                return V("Bool", tx, defd=parts[0].defd)
             if f.id == "isinstance" and len(e.args) == 2 and not e.keywords:
                 v = self.ex(e.args[0], env)
                 t = e.args[1]
@@ -1065,6 +1185,8 @@ class Translator:
                 return V("Str", defd=v.defd)
             if f.id == "int" and len(e.args) == 1 and ast.unparse(e) == "int(time.time() * 1000)":
                 return V("Opaque")
+            if f.id in self.module_funcs:
+                return self.pure_helper(e, None, self.module_funcs[f.id], env, False)
             self.fail(e, f"call of `{f.id}` in an expression")
         if isinstance(f, ast.Attribute):
             sk = self.self_kind(f.value, env)
@@ -1079,7 +1201,14 @@ class Translator:
                         self.fail(e, "arguments to a pure method")
                     s = self.method(cls, f.attr, e)
                     return V("Bool", f"({s['name']} {env.st})")
-                self.fail(e, f"call of `{ast.unparse(f)}` in an expression (only the pure methods and getters)")
+                if fn is not None and (cls, f.attr) not in KIND:
+                    return self.pure_helper(e, cls, fn, env, True)
+                self.fail(e, f"call of `{ast.unparse(f)}` in an expression (only the pure methods, getters and helpers that are `return <expression>`)")
+            if sk == "worker":
+                cls, fn = self.resolve(WORKER, f.attr, e)
+                if fn is not None and (cls, f.attr) not in KIND and f.attr not in THREAD_PRIMITIVES:
+                    return self.pure_helper(e, cls, fn, env, True)
+                self.fail(e, f"call of `{ast.unparse(f)}` of the worker thread in an expression")
             base = self.ex(f.value, env)
             if base.ty == "EvList" and not e.args and not e.keywords:
                 if f.attr == "is_empty":
@@ -1099,6 +1228,8 @@ class Translator:
     def block(self, stmts, env, k):
         if not stmts:
             return k(env)
+        if len(stmts) == 1:
+            return self.stmt(stmts[0], env, k)      # the continuation itself: a try that ends the loop body can see it
         return self.stmt(stmts[0], env, lambda e2: self.block(stmts[1:], e2, k))
 
     def new_state(self, env, text, k):
@@ -1119,7 +1250,8 @@ class Translator:
         if isinstance(s, ast.Expr) and isinstance(s.value, ast.Constant) and isinstance(s.value.value, str):
             return k(env)
         if self.is_wait_loop(s):
-            c.ignored.append({"line": s.lineno, "statement": "while " + ast.unparse(s.test)[:70] + ": sleep(..)",
+            head = ("while " + ast.unparse(s.test)[:70]) if isinstance(s, ast.While) else ("for .. in " + ast.unparse(s.iter)[:40])
+            c.ignored.append({"line": s.lineno, "statement": head + ": sleep(..)",
                               "why": "threading: waiting for the other thread"})
             return k(env)
         if isinstance(s, ast.Raise):
@@ -1135,9 +1267,23 @@ class Translator:
             if x.func.id in OTHER_EXCEPTIONS and x.func.id not in self.bound:
                 return self.exc(env, "EOther")
             self.fail(s, f"raise {x.func.id}")
+        if isinstance(s, ast.Continue):
+            if c.loop is not None and c.in_try and c.try_ends_loop_body and c.ret_k is None:
+                # the try statement is the last one of the loop body: leaving its body / handler here IS the continue
+                return self.finish(env)
+            if c.loop is None or c.in_try or c.ret_k is not None:
+                self.fail(s, "continue outside the body of the method's own loop / inside a try that does not end the loop body")
+            return self.loop_continue(env)
         if isinstance(s, ast.Return):
             if c.in_try:
                 self.fail(s, "return inside try / finally")
+            if c.ret_k is not None:             # the return of an inlined helper: the call site goes on
+                if s.value is None:
+                    return c.ret_k(env, None)
+                if isinstance(s.value, ast.Call) and self.is_effect_call(s.value, env):
+                    self.fail(s, "a helper that returns the result of a call with an effect")
+                v = self.ex(s.value, env)
+                return self.guard(v.defd, env, lambda: c.ret_k(env, V(v.ty, v.tx, z=v.z, **v.x)))
             if s.value is None:
                 return self.finish(env)
             if isinstance(s.value, ast.Call) and self.is_effect_call(s.value, env):
@@ -1188,9 +1334,11 @@ class Translator:
                 del ends[:]
                 tb = self.block(s.orelse, env.fork(), probe)
                 eb = list(ends)
+                pa, pb = self.straight(ta, env), self.straight(tb, env)
             except Unsupported:
-                raise
-            pa, pb = self.straight(ta, env), self.straight(tb, env)
+                # what the probe cannot translate may still translate with the real continuation (or fail there, for real)
+                pa = pb = None
+                ea = eb = []
             if pa is not None and pb is not None and len(ea) == 1 and len(eb) == 1:
                 j = self.join(cd, pa, pb, ea[0], eb[0], env, k)
                 if j is not None:
@@ -1314,7 +1462,16 @@ class Translator:
             if isinstance(value, ast.Call) and self.is_effect_call(value, env):
                 return self.effect_call(value, env, k, bind=target.id)
             v = self.ex(value, env)
-            if v.ty in ("Str", "Opaque", "None", "EvType") or (v.ty == "Z" and isinstance(value, ast.Constant)):
+            if v.ty == "EvList":
+                # the local names the event list OBJECT (self._eventlist is never re-assigned): an alias, not a snapshot
+                if ast.unparse(value) not in ("self._eventlist", "self.eventlist()") or self.self_kind(ast.Name(id="self", ctx=ast.Load()), env) != "sim":
+                    self.fail(s, "a local bound to the event list through something else than self._eventlist / self.eventlist()")
+                e2 = env.clone()
+                e2.locals[target.id] = V("AliasEvList")
+                return self.guard(v.defd, env, lambda: k(e2))
+            if v.ty == "Worker":
+                self.fail(s, "a local bound to the worker thread object (self.__worker is re-assigned: the alias could go stale)")
+            if v.ty in ("Str", "Opaque", "None", "EvType", "Job", "WorkerSelf", "Exc") or (v.ty == "Z" and isinstance(value, ast.Constant)):
                 e2 = env.clone()
                 e2.locals[target.id] = V(v.ty, v.tx, **v.x)
                 return self.guard(v.defd, env, lambda: k(e2))
@@ -1375,7 +1532,7 @@ class Translator:
     def is_effect_call(self, e, env):
         f = e.func
         if isinstance(f, ast.Name):
-            return f.id in NOEFFECT_CALLS or f.id == "SimEvent"
+            return f.id in NOEFFECT_CALLS or f.id == "SimEvent" or (f.id in self.module_funcs and f.id not in env.locals)
         if isinstance(f, ast.Attribute):
             if isinstance(f.value, ast.Call) and isinstance(f.value.func, ast.Name) and f.value.func.id == "super":
                 return True
@@ -1468,6 +1625,144 @@ class Translator:
             return env.locals[node.id].tx
         self.fail(e, "** argument that is not the method's own **kwargs")
 
+    def helper_params(self, e, fn, env, is_method, what):
+        """bind the arguments of a call of a helper: ({name: V}, definedness of the arguments)"""
+        a = fn.args
+        if fn.decorator_list or isinstance(fn, ast.AsyncFunctionDef):
+            self.fail(fn, f"helper {what} is decorated / async")
+        if a.vararg or a.kwarg or a.kwonlyargs or a.posonlyargs:
+            self.fail(fn, f"helper {what} takes *args / **kwargs / keyword-only / positional-only parameters")
+        for n in ast.walk(fn):
+            if isinstance(n, (ast.FunctionDef, ast.AsyncFunctionDef, ast.Lambda, ast.ClassDef)) and n is not fn:
+                self.fail(n, "nested function / class / lambda")
+            if isinstance(n, (ast.Yield, ast.YieldFrom, ast.Await, ast.Global, ast.Nonlocal, ast.NamedExpr, ast.With, ast.Match)):
+                self.fail(n, type(n).__name__)
+        names = [x.arg for x in a.args]
+        if is_method:
+            if not names or names[0] != "self":
+                self.fail(fn, f"helper {what}: first parameter is not `self`")
+            names = names[1:]
+        if any(isinstance(x, ast.Starred) for x in e.args) or any(kw.arg is None for kw in e.keywords) or len(e.args) > len(names):
+            self.fail(e, f"call of helper {what}: starred / ** / too many arguments")
+        given = dict(zip(names, e.args))
+        for kw in e.keywords:
+            if kw.arg not in names or kw.arg in given:
+                self.fail(e, f"call of helper {what}: keyword argument `{kw.arg}`")
+            given[kw.arg] = kw.value
+        ndef = len(a.defaults)
+        out, defd = {}, []
+        for i, n in enumerate(names):
+            if n in given:
+                v = self.ex(given[n], env)          # evaluated at the call site, in the caller's state, left to right
+            else:
+                di = i - (len(names) - ndef)
+                if di < 0:
+                    self.fail(e, f"call of helper {what}: argument `{n}` missing")
+                v = self.ex(a.defaults[di], Env())
+                if v.defd or not isinstance(a.defaults[di], (ast.Constant, ast.Attribute)):
+                    self.fail(a.defaults[di], "default of a helper's parameter that is not a constant")
+            defd += v.defd
+            out[n] = V(v.ty, v.tx, z=v.z, **v.x)
+        return out, defd
+
+    def pure_helper(self, e, cls, fn, env, is_method):
+        """a helper called inside an expression: its body must be `return <expression>`"""
+        c = self.ctx
+        what = f"{cls + '.' if cls else ''}{fn.name}"
+        key = (cls, fn.name)
+        if key in c.inline_stack:
+            self.fail(e, f"recursive helper {what}")
+        body = self.strip_doc(fn.body)
+        if len(body) != 1 or not isinstance(body[0], ast.Return) or body[0].value is None:
+            self.fail(e, f"helper {what} called inside an expression is more than `return <expression>`")
+        params, defd = self.helper_params(e, fn, env, is_method, what)
+        cenv = env.clone()
+        cenv.locals = params
+        saved = c.cls
+        c.inline_stack.append(key)
+        if cls:
+            c.cls = cls
+        try:
+            v = self.ex(body[0].value, cenv)
+        finally:
+            c.cls = saved
+            c.inline_stack.pop()
+        self.note_inlined(what, fn)
+        return V(v.ty, v.tx, defd=defd + v.defd, z=v.z, **v.x)
+
+    def note_inlined(self, what, fn):
+        c = self.ctx
+        if not any(i["helper"] == what for i in c.inlined):
+            src_lines = self.lines[fn.lineno - 1:fn.end_lineno]
+            c.inlined.append({"helper": what, "lines": [fn.lineno, fn.end_lineno],
+                              "sha1": hashlib.sha1("\n".join(src_lines).encode("utf-8")).hexdigest()})
+
+    def do_return(self, env, value, node):
+        """the enclosing method / helper returns value (a V or None)"""
+        c = self.ctx
+        if c.ret_k is not None:
+            return c.ret_k(env, value)
+        if value is None or value.ty == "None":
+            return self.finish(env)
+        if value.ty == "Ev":
+            return self.finish(env, value.tx)
+        self.fail(node, f"return of a value of kind {value.ty}")
+
+    def inline_call(self, e, cls, fn, env, k, tail, bind, is_method):
+        """a call of a helper that is not part of the translated interface: the callee's body at the call site.  The
+        arguments are evaluated first (caller's state); the helper's `return` continues the caller, its `raise` is the
+        caller's raise at that point (inside the caller's try it is caught there)."""
+        c = self.ctx
+        what = f"{cls + '.' if cls else ''}{fn.name}"
+        key = (cls, fn.name)
+        if key in c.inline_stack:
+            self.fail(e, f"recursive helper {what}")
+        if len(c.inline_stack) > 6:
+            self.fail(e, "helpers nested more than 6 deep")
+        params, defd = self.helper_params(e, fn, env, is_method, what)
+        self.note_inlined(what, fn)
+        for st in fn.body:
+            for n in ast.walk(st):
+                if isinstance(n, (ast.While, ast.For)) and not self.is_wait_loop(n) and ast.unparse(n) not in IGNORED_STATEMENTS:
+                    self.fail(n, f"a loop inside helper {what}")
+            self.no_stray_break(st)
+
+        def body_text():
+            cenv = env.clone()
+            cenv.locals = dict(params)
+            saved = (c.cls, c.ret_k, c.in_try, c.loop)
+            saved_tel = c.try_ends_loop_body
+
+            def after(e_end, value):
+                inner = (c.cls, c.ret_k, c.in_try, c.loop)
+                inner_tel = c.try_ends_loop_body
+                c.try_ends_loop_body = saved_tel
+                c.cls, c.ret_k, c.in_try, c.loop = saved
+                c.inline_stack.remove(key)
+                try:
+                    e2 = env.clone(st=e_end.st, w=e_end.w)
+                    if bind is not None:
+                        if value is None or value.tx is None and value.ty not in ("None", "Str", "Opaque", "Job", "WorkerSelf", "Exc", "EvType"):
+                            self.fail(e, f"the result of helper {what} is assigned but it returns nothing usable")
+                        e2.locals[bind] = value
+                    if tail:
+                        return self.do_return(e2, value, e)
+                    return k(e2)
+                finally:
+                    c.inline_stack.append(key)
+                    c.cls, c.ret_k, c.in_try, c.loop = inner
+                    c.try_ends_loop_body = inner_tel
+            c.cls, c.ret_k, c.in_try, c.loop = (cls or c.cls), after, 0, None
+            c.try_ends_loop_body = False
+            c.inline_stack.append(key)
+            try:
+                return self.block(self.strip_doc(fn.body), cenv, lambda e_end: after(e_end, None))
+            finally:
+                c.inline_stack.remove(key)
+                c.cls, c.ret_k, c.in_try, c.loop = saved
+                c.try_ends_loop_body = saved_tel
+        return self.guard(defd, env, body_text)
+
     def ensure_block(self, which, node):
         name, requires, text = {"mid": ("@MIDLUDE", MIDLUDE_REQUIRES, MIDLUDE), "post": ("@POSTLUDE", POSTLUDE_REQUIRES, POSTLUDE)}[which]
         if any(n == name for n, _ in self.defs):
@@ -1511,6 +1806,8 @@ class Translator:
                 return k(env)
             if f.id == "sleep":
                 return k(env)
+            if f.id in self.module_funcs:
+                return self.inline_call(e, None, self.module_funcs[f.id], env, k, tail, bind, False)
         if not isinstance(f, ast.Attribute):
             self.fail(e, f"call `{ast.unparse(e)[:60]}`")
         m = f.attr
@@ -1558,6 +1855,9 @@ class Translator:
             if m == "wakeup" and not e.args and bind is None and not tail:
                 self.check_primitive("wakeup", e)
                 return k(env.clone(w="true"))
+            cls, fn = self.resolve(WORKER, m, e)
+            if fn is not None and m not in THREAD_PRIMITIVES and m not in ("is_waiting", "is_finalized", "is_running", "run", "__init__", "start"):
+                return self.method_call(e, cls, m, env, k, tail, bind)
             self.fail(e, f"call of self.{m} in the worker class")
         base = self.ex(f.value, env)
         if bind is None and not tail and not e.keywords:
@@ -1574,9 +1874,17 @@ class Translator:
                 if m == "wakeup":
                     self.check_primitive("wakeup", e)
                     return self.guard(d, env, lambda: k(env.clone(w="true")))
-                return self.guard(d, env, lambda: self.method_call(e, WORKER, "cleanup", env, k, tail, bind, noargs=True))
+                if self.find_method(WORKER, "cleanup") is None:
+                    self.fail(e, "the worker class has no method cleanup")
+                saved_cls = self.ctx.cls
+
+                def as_worker():
+                    # the callee runs with self = the worker thread object
+                    return self.inline_call(ast.copy_location(ast.Call(func=e.func, args=[], keywords=[]), e), WORKER,
+                                            self.find_method(WORKER, "cleanup"), env, k, tail, bind, True)
+                return self.guard(d, env, as_worker)
             if base.ty in ("OptEv", "Ev") and m == "execute" and not e.args:
-                md = HMODE.get((c.cls, c.name))
+                md = c.hmode
                 if md is None:
                     self.fail(e, "event.execute() in a method for which the translator has no handler mode")
                 self.ensure_block("mid", e)
@@ -1611,6 +1919,9 @@ class Translator:
         c = self.ctx
         if KIND.get((cls, m)) == "query":
             self.fail(e, f"the pure method {m} called as a statement")
+        if (cls, m) not in KIND:
+            # a helper that is not part of the translated interface: its body is translated at the call site
+            return self.inline_call(e, cls, self.find_method(cls, m), env, k, tail, bind, True)
         sig = self.method(cls, m, e)
         c.needs_p = c.needs_p or sig["needs_p"]
         c.needs_fuel = c.needs_fuel or sig["needs_fuel"]
@@ -1666,6 +1977,9 @@ class Translator:
         if len(s.handlers) > 1:
             self.fail(s, "several except clauses")
         c.in_try += 1
+        saved_tel = c.try_ends_loop_body
+        c.try_ends_loop_body = (c.in_try == 1 and c.loop is not None and c.ret_k is None and k == self.loop_continue
+                                and not s.finalbody)
         r = self.block(s.body, env.fork(), self.finish)
         if s.handlers:
             h = s.handlers[0]
@@ -1688,6 +2002,7 @@ class Translator:
             ft = self.block(s.finalbody, env.fork(st=sn, w=wn), self.finish)
             r = f"gfinally {blk(r)} (fun {wn} {sn} =>\n{ind(ft)})"
         c.in_try -= 1
+        c.try_ends_loop_body = saved_tel
         return self.bind_res(r, env, k)
 
 
